@@ -293,6 +293,30 @@ class Gen:
         if self.rng.random() < self.p["read_after_stabilise"]:
             self.read_all()
 
+    def teardown(self):
+        """drop every handle the program holds, in a random order, interleaved with stabilises"""
+        todo = []
+        for h, n in enumerate(self.nodes):
+            if not n.get("dropped"):
+                todo.append(f"dropnode {h}")
+        for x, v in enumerate(self.vars):
+            if not v.get("dropped"):
+                todo.append(f"dropvar {x}")
+        for o, ob in enumerate(self.obs):
+            todo.extend([f"dropobs {o}"] * ob["handles"])
+        if self.rng.random() < 0.5:
+            todo.append("dropexports")
+        self.rng.shuffle(todo)
+        for t in todo:
+            self.emit(t)
+            if self.rng.random() < 0.1:
+                self.emit("stabilise")
+        self.emit("stabilise")
+        # a bind that was still needed may have handed out nodes in that stabilise: drop those handles too
+        self.emit("dropexports")
+        self.emit("stabilise")
+        self.emit("stats")
+
     def op_misc(self):
         self.emit(self.rng.choice(["isstable", "stats"]))
 
@@ -309,6 +333,8 @@ class Gen:
         if self.rng.random() < 0.8:
             self.op_stabilise()
             self.read_all()
+        if self.p.get("teardown"):
+            self.teardown()
         return self.lines
 
 
@@ -362,6 +388,10 @@ PROFILES = {
                                 zip=0, dependon=0, cutoff=0),
                       obs_ops=["clone", "drop", "drop", "disallow", "read", "read", "subscribe", "subscribe", "unsubscribe",
                                "unsubscribe", "stateunsub"]),
+    "teardown": dict(export_prob=0.25, dangling_prob=0.3, teardown=True,
+                     weights=dict(var=3, const=1, map=6, mapref=2, mapold=2, fold=2, zip=1, dependon=1, bind=7,
+                                  cutoff=1, observe=5, obs_misc=8, write=10, stabilise=9, misc=1,
+                                  observeexport=2, mapexport=2, dropnode=3, dropvar=1)),
     "drops": dict(export_prob=0.25, dangling_prob=0.3,
                   weights=dict(var=3, const=1, map=6, mapref=2, mapold=2, fold=2, zip=1, dependon=1, bind=7,
                                cutoff=1, observe=5, obs_misc=8, write=10, stabilise=9, misc=1,
